@@ -289,19 +289,24 @@ def r4_md5_scripts(rep, src):
     scripts = mod.consts.get('', {}).get('MAINT_SCRIPTS') or []
     if not {'preinst', 'postinst', 'prerm', 'postrm', 'config'} <= set(scripts):
         rep.fail('C07.R4', M + ':MAINT_SCRIPTS', 'maintainer script names', 'MAINT_SCRIPTS = %r' % (scripts,))
-    for present, empty in ((set(scripts), set()), ({'postinst', 'config'}, set()), (set(), set()), ({'preinst', 'prerm'}, {'prerm'})):
-        heap = H.Heap(mod, hooks={'.has_file': lambda it, args, kw, present=present: args[1] in present,
-                                  '.get_content': lambda it, args, kw, empty=empty: None if args[1] in empty else H.Key('content-of-' + args[1], args[1])})
+    for present, empty, zero in ((set(scripts), set(), set()), ({'postinst', 'config'}, set(), set()), (set(), set(), set()), ({'preinst', 'prerm'}, {'prerm'}, set()),
+                                 ({'preinst', 'postrm'}, set(), {'postrm'})):
+        def content(it, args, kw, empty=empty, zero=zero):
+            # None: not a regular file; '': a zero-length script; otherwise its text
+            return None if args[1] in empty else '' if args[1] in zero else H.Key('content-of-' + args[1], args[1])
+        heap = H.Heap(mod, hooks={'.has_file': lambda it, args, kw, present=present: args[1] in present, '.get_content': content,
+                                  '.tgz': lambda it, args, kw: it.h.alloc('Tar', {}, name='@tar'),
+                                  '.getnames': lambda it, args, kw, present=present: it.h.new_list(['./' + n_ for n_ in sorted(present)] + ['./control', './md5sums'])})
         heap.symbolic_strings = True
         ctl = heap.alloc('DebControl', {}, name='@control')
-        what = 'scripts() with %s present%s' % (sorted(present) or 'nothing', (', %s unreadable' % sorted(empty)) if empty else '')
+        what = 'scripts() with %s present%s%s' % (sorted(present) or 'nothing', (', %s unreadable' % sorted(empty)) if empty else '', (', %s of length zero' % sorted(zero)) if zero else '')
         try:
             r = H.Interp(heap).call(H.Closure(s.node, {}, ctl, s.cls), [])
         except H.Raised as x:
             rep.fail('C07.R4', s.site, what, 'raises %s' % x.exc, where=s.where)
             continue
-        got = {k: v.cls for k, v in heap.objs[r.name]['entries']} if isinstance(r, H.Ref) else None
-        want = {n: 'content-of-' + n for n in scripts if n in present and n not in empty}
+        got = {k: (v.cls if isinstance(v, H.Key) else v) for k, v in heap.objs[r.name]['entries']} if isinstance(r, H.Ref) else None
+        want = {n: ('' if n in zero else 'content-of-' + n) for n in scripts if n in present and n not in empty}
         if got == want:
             rep.ok('C07.R4', s.site, what, 'name → content for %d scripts' % len(want))
         else:
